@@ -836,6 +836,12 @@ func (c *Client) peekPacket() (head byte, err error) {
 
 		lastN := len(c.peek)
 		c.peek, err = c.bufr.Peek(size)
+		if errors.Is(err, bufio.ErrBufferFull) && len(c.peek) < c.bufr.Size() {
+			// Peek beyond the buffer size reports ErrBufferFull even
+			// when a read error stopped the fill early. Fetch the
+			// pending error, as the buffer isn't actually full yet.
+			_, err = c.bufr.Peek(len(c.peek) + 1)
+		}
 		switch {
 		case err == nil: // OK
 			return head, err
